@@ -350,6 +350,12 @@ def do_batch(args, tier, prof, pools, t_start, jobs):
         "%s %s: runs=%d steps=%d nontrivial_distinct=%d aborted=%d wall=%.1fs%s"
         % (prop, tier, cov["evaluations"], cov.get("steps", 0), cov["distinct_nontrivial"], cov.get("aborted_runs", 0), time.time() - t_start, " (wall cap hit)" if cut else "")
     )
+    ab = [d for d in results if d["aborted"]]
+    if ab:
+        from collections import Counter as _C
+
+        for reason, n in _C(d["aborted"][:160] for d in ab).most_common(4):
+            print("  aborted x%d (first run %d): %s" % (n, min(d["run"] for d in ab if d["aborted"][:160] == reason), reason))
     for rp in reported:
         print("violation: %s at step %d: %s" % (rp["violation"]["check"], rp["violation"]["step"], rp["violation"]["detail"][:600]))
         print("minimised to %d operations; replay verified in a fresh process: %s" % (len(rp["ops"]), rp.get("verified")))
